@@ -122,6 +122,18 @@ def run(ctx):
     _verdict(run, "C08.R8", orf, "resource text handed to the parser "
              "unmodified", r, m)
 
+    # ... and the URL errors are reported against is the one the caller
+    # named: loadFile takes the file's own name only when no URL was given
+    for cq_ in (BL, "ZConfig.loader.ConfigLoader"):
+        lf_ = m.lookup_method(cq_, "loadFile")
+        if lf_ is None:
+            raise AnalysisError("anchor vanished: %s.loadFile" % cq_)
+        r = X.compare(P, lf_, X.spec_method(P, "ref_loader.py", "loadFile",
+                                            BL), rename=c18._rename,
+                      live_kw={"inline": lambda f: f.name == "loadFile"})
+        _verdict(run, "C08.R8", lf_, "the resource's URL: the caller's, else "
+                 "the file's own name", r, m)
+
     # ------------------------------------------------------------------ R9
     # what the matcher raises about the line being added: either without a
     # position (the parser's handler fills in the current line) or with the
